@@ -12,19 +12,20 @@ subscription no longer added to its CompositeDisposable, a timer disposable no l
 namespace Ownership
 open RxGen.Ownership
 
-/-- justified exceptions: (file, receiver, callee, classification). -/
-def allow : List (String × String × String × String) := [
+/-- justified exceptions: (file, callee, classification) — the receiver's local name is deliberately not part of the key
+(renaming or removing a local alias is a harmless rewrite). -/
+def allow : List (String × String × String) := [
   -- Observable.subscribe: the trampoline action *is* the subscription set-up; it runs inside this very call
   -- (the trampoline is idle, `schedule_required()`), and what it builds is owned by the AutoDetachObserver.
-  ("observable/observable.py", "current_thread_scheduler", "schedule", "dropped"),
+  ("observable/observable.py", "schedule", "dropped"),
   -- ConnectableObservable.auto_connect: documented to stay connected indefinitely ("stays connected to the
   -- source indefinitely"); the connection is deliberately not owned by any subscriber.
-  ("observable/connectableobservable.py", "source", "connect", "held_unrooted")
+  ("observable/connectableobservable.py", "connect", "held_unrooted")
 ]
 
 def Row.ok (r : Row) : Bool :=
   r.cls == "returned" || r.cls == "owned" || r.cls == "nested_return" ||
-  allow.contains (r.file, r.recv, r.callee, r.cls)
+  allow.contains (r.file, r.callee, r.cls)
 
 theorem ownership_ok : table.all Row.ok = true := by decide +kernel
 
